@@ -171,8 +171,9 @@ def run(ctx):
         r = ctx.tlc(S, "MC_SpanState", "MC_SpanState.cfg", defines=d, want_edges=True, name=c["name"], timeout=1800)
         for rep in reps:
             out = os.path.join(ctx.work, "replay-%s-%d.json" % (c["name"], rep))
+            # second, peek-interleaved replay of every 3rd edge (thorough: four reps -> every 6th per rep)
             ctx.run([binp, "replay", "-edges", r["edges_file"], "-lim", json.dumps(c["lim"]), "-rep", str(rep),
-                     "-out", out], timeout=1800)
+                     "-peek", "6" if thorough else "3", "-out", out], timeout=1800)
             res = json.load(open(out))
             edges_total += res["executed"]
             ctx.traces_validated += res["executed"]
